@@ -236,3 +236,58 @@ def bayes_rules(chk, S, r3):
     ok = isinstance(o3, tuple) and o3[0] is T.mk("mcall", (A("observed"), "residual_whitened_rms_tree", data)) and o3[1] is T.mk("mcall", (A("reverted"), "apply_flat", want_flat_obs))
     r3.require(ok, "AbstractLatentCond.bayes_rule_and_residual_whitened_rms_tree", "(observed.residual_whitened_rms(data), reverted.apply_flat(flatten(data)))", f"{T.show(o3, 4)}", API)
     S.absorb(it)
+
+
+def linearisation_threading(S: Session):
+    """For every solver x strategy x flag: the constraint state (PRNG key of a Monte-Carlo Jacobian handler) is threaded through the step.
+
+    Yields (construct, ok, detail, where, cfg).  Used by C17 (key advance on every call, seen from the solver).
+    """
+    for ci in S.p.subclasses(SOLVERS + ".ProbabilisticSolver"):
+        init_node = ci.methods.get("__init__")
+        params = [a.arg for a in init_node.args.kwonlyargs] if init_node else []
+        relin_flag = "re_linearize_after_calibration" in params
+        for strategy in STRATEGIES:
+            for relin in ((False, True) if relin_flag else (None,)):
+                cfg = {"solver": ci.name, "strategy": strategy}
+                flags = {}
+                if relin is not None:
+                    flags["re_linearize_after_calibration"] = relin
+                    cfg["re_linearize_after_calibration"] = relin
+                it = S.interp()
+                solver = make_solver(it, ci.name, strategy, **flags)
+                env = TD.TEnv()
+                state = typed_solution(it, env, strategy, "state")
+                out = call(it, method(it, solver, "step"), state=state, dt=A("dt"), damp=A("damp"))
+                S.absorb(it)
+                where = ci.module.relpath
+                name = f"{ci.name}.step"
+                if not isinstance(out, Rec):
+                    yield (f"{name} threads the constraint state", False, "step does not return a solution record", where, cfg)
+                    continue
+                lins = mcalls(out, "linearize", A("constraint"))
+                aux_in, aux_out = state.fields["auxiliary"], out.fields["auxiliary"]
+
+                def head(v):
+                    return v[0] if isinstance(v, (tuple, list)) and v else v
+
+                def is_in(st):
+                    return st is aux_in or st is head(aux_in) or (isinstance(st, T.Term) and st.op == "getitem" and st.args[0] is aux_in and st.args[1] == 0)
+
+                firsts = [ln for ln in lins if is_in(named(ln, "state"))]
+                if len(firsts) != 1:
+                    yield (f"{name} threads the constraint state", False, f"{len(firsts)} linearisations start from state.auxiliary (of {len(lins)})", where, cfg)
+                    continue
+                chain = [firsts[0]]
+                rest = [ln for ln in lins if ln is not firsts[0]]
+                while rest:
+                    nxt = [ln for ln in rest if named(ln, "state") is T.mk("getitem", (chain[-1], 1))]
+                    if len(nxt) != 1:
+                        break
+                    chain.append(nxt[0])
+                    rest.remove(nxt[0])
+                ok_chain = not rest
+                last_state = T.mk("getitem", (chain[-1], 1))
+                ok_out = head(aux_out) is last_state or aux_out is last_state
+                detail = f"{len(lins)} linearisations chained: {ok_chain}; stored state {T.show(head(aux_out), 3)}"
+                yield (f"{name} threads the constraint state", bool(ok_chain and ok_out), detail, where, cfg)
